@@ -5,6 +5,7 @@ import (
 	"encoding/json"
 	"fmt"
 	"sort"
+	"strings"
 
 	"github.com/openacid/low/bitmap"
 
@@ -88,7 +89,7 @@ func (Tail) Generate(seed uint64, tier string) engine.Plan {
 		base = 0
 	}
 	big := r.Chance(1, 40) // a run that crosses the DEFAULT threshold without the hook
-	if tier == "thorough" {
+	if strings.HasPrefix(tier, "thorough") {
 		big = r.Chance(1, 20)
 	}
 	layout := r.PickStr("contig", "strided", "overlap")
